@@ -45,36 +45,35 @@ pub use zip_writer::ZipWriter;
 //@item src/read.rs | enum ZipFileReader
 //@item src/crc32.rs | struct Crc32Reader
 //@item src/read.rs | struct ZipFile
-pub open spec fn cow_val<'a>(c: Cow<'a, ZipFileData>) -> ZipFileData { match c { Cow::Borrowed(b) => *b, Cow::Owned(o) => o } }
-pub open spec fn unix_mode_of(f: ZipFileData) -> Option<u32> {
-    if f.external_attributes == 0 { None } else {
-        match f.system {
-            System::Unix => Some(f.external_attributes >> 16),
-            System::Dos => {
-                let base = if 0x10 == (f.external_attributes & 0x10) { ffi::S_IFDIR | 0o0775 } else { ffi::S_IFREG | 0o0664 };
-                Some(if 0x01 == (f.external_attributes & 0x01) { base & 0o0555 } else { base })
-            }
-            _ => None,
-        }
-    }
+//@include spec/entry_views.rs
+impl<'a> Dev for ZipFileReader<'a> {
+    open spec fn g_ready(&self) -> bool { !(self is NoReader) }
+    open spec fn g_dev(&self) -> bool { false }
+    open spec fn g_bytes(&self) -> Seq<u8> { Seq::empty() }
+    open spec fn g_pos(&self) -> int { 0 }
+    open spec fn g_fault(&self) -> bool { false }
 }
-// how many undecoded bytes the entry's raw reader still has to deliver (the Take limit set by find_content),
-// and whether the underlying source ends before that (then a copy is short and the archive was truncated)
-pub uninterp spec fn raw_remaining(r: DynRead) -> u64;
-pub uninterp spec fn raw_src_short(r: DynRead) -> bool;
-pub uninterp spec fn zf_short(z: ZipFile) -> bool;
-pub open spec fn zf_raw_limit(z: ZipFile) -> u64 {
+impl<'a> Read for ZipFileReader<'a> {
+//@use zipfilereader_read nobody
+}
+// the bounded, undecoded view of the archive an open entry reads its raw bytes from (what get_raw_reader installs)
+pub open spec fn zf_raw_take<'a>(z: ZipFile<'a>) -> Take<DynRead<'a>> {
     match z.reader {
-        ZipFileReader::Raw(t) => t.limit,
-        ZipFileReader::NoReader => match z.crypto_reader {
-            Some(CryptoReader::Plaintext(t)) => t.limit,
-            Some(CryptoReader::ZipCrypto(v)) => v.g_file().limit,
-            Some(CryptoReader::Aes { reader, .. }) => reader.g_reader().limit,
-            None => 0,
-        },
-        _ => 0,
+        ZipFileReader::Raw(t) => t,
+        _ => crypto_take(z.crypto_reader.unwrap()),
     }
 }
+// the bytes a raw copy has to transfer: the next `limit` bytes of the source device, or what is left of it if the source
+// ends early (a truncated archive)
+pub open spec fn take_avail<'a>(t: Take<DynRead<'a>>) -> int {
+    let left = t.inner.g_bytes().len() - t.inner.g_pos();
+    if left <= 0 { 0 } else if t.limit as int <= left { t.limit as int } else { left }
+}
+pub open spec fn pre_data(d: Seq<u8>, p: int, n: int) -> Seq<u8> { if n <= 0 { Seq::<u8>::empty() } else { at(d, p, n) } }
+pub open spec fn take_data<'a>(t: Take<DynRead<'a>>) -> Seq<u8> {
+    if take_avail(t) == 0 { Seq::<u8>::empty() } else { at(t.inner.g_bytes(), t.inner.g_pos(), take_avail(t)) }
+}
+pub open spec fn zf_raw_limit(z: ZipFile) -> u64 { zf_raw_take(z).limit }
 impl<'a> ZipFile<'a> {
 //@use zipfile_compressed_size nobody
 //@use zipfile_size nobody
@@ -83,15 +82,7 @@ impl<'a> ZipFile<'a> {
 //@use zipfile_crc32 nobody
 //@use zipfile_unix_mode nobody
 //@use zipfile_name nobody
-// ASSUMED (the body coerces `&mut self.reader` to `&mut dyn Read`): the raw reader is the entry's bounded,
-// undecoded byte stream (ZipFileReader::Raw / CryptoReader::into_inner: proved in U8)
-//@fn zipfile_get_raw_reader
-//@| fn: src/read.rs | impl<'a> ZipFile<'a> | fn get_raw_reader
-//@| attr: #[verifier::external_body]
-//@| ret: r
-//@| ensures:
-//@|     raw_remaining(r) == zf_raw_limit(*old(self)), raw_src_short(r) == zf_short(*old(self)),
-//@end
+//@use zipfile_get_raw_reader nobody
 }
 impl CentralDirectoryEnd {
 //@use cde_find_and_parse nobody
@@ -130,21 +121,119 @@ impl<W: Write + io::Seek> ZipWriter<W> {
 impl<W: Write + io::Seek> GenericZipWriter<W> {
 //@use gzw_is_closed nobody
 }
+impl<W: Write + io::Seek> Write for ZipWriter<W> {
+//@use zw_write nobody
+//@use zw_flush nobody
+}
+//@include common/writer_std_models.rs
 // T7x in raw_copy_file_rename: `io::copy(file.get_raw_reader(), self)`.
-// ASSUMED (std::io::copy = read until Ok(0), write_all each chunk) in terms of ZipWriter::write's proved contract
-#[verifier::external_body]
-fn shim_copy_raw<'b, W: Write + io::Seek>(src: DynRead<'b>, w: &mut ZipWriter<W>) -> (r: io::Result<u64>)
-    requires zw_ready(old(w)), old(w).writing_to_file, !old(w).writing_to_extra_field,
+// TRANSCRIPTION of std::io::copy (generic path, library/std/src/io/copy.rs `stack_buffer_copy`): read into an 8 KiB stack
+// buffer until Ok(0), write_all every chunk, count the bytes; the retry on ErrorKind::Interrupted is omitted (the I/O
+// model has no such kind).  The body is VERIFIED against ZipFileReader::read (U8) and the write_all transcription, so
+// "every byte is copied, unchanged, in order" is derived; only the transcription itself is trusted.
+fn shim_copy_raw<'b, W: Write + io::Seek>(src: &mut ZipFileReader<'b>, w: &mut ZipWriter<W>) -> (r: io::Result<u64>)
+    requires
+        (*old(src)) is Raw, dev_ok(&(*old(src))->Raw_0.inner),
+        zw_ready(old(w)), old(w).writing_to_file, !old(w).writing_to_extra_field, old(w).stats.bytes_written == 0,
+        (*old(src))->Raw_0.inner.g_dev(),
     ensures
         zw_wf(final(w)) && (zw_room(final(w)) || zw_faulted(final(w)) || final(w).inner is Closed),
-        final(w).files@ == old(w).files@,
+        final(w).files@.len() == old(w).files@.len(),
+        old(w).files@.len() > 0 ==> entry_identity_kept(old(w).files@.last(), final(w).files@.last()),
+        forall|i: int| 0 <= i < old(w).files@.len() - 1 ==> final(w).files@[i] == old(w).files@[i],
         final(w).writing_to_file == old(w).writing_to_file && final(w).writing_to_extra_field == old(w).writing_to_extra_field
             && final(w).writing_to_central_extra_field_only == old(w).writing_to_central_extra_field_only
             && final(w).writing_raw == old(w).writing_raw && final(w).comment == old(w).comment,
         r is Ok ==> gzw_method(final(w).inner) == gzw_method(old(w).inner),
-        r matches Ok(n) ==> final(w).stats.bytes_written == old(w).stats.bytes_written + n
-            && (n == raw_remaining(src) || raw_src_short(src)),
-{ unimplemented!() }
+        r is Ok && zw_clean(old(w)) ==> zw_clean(final(w)),
+        final(w).files@ == old(w).files@,
+        // what was copied: exactly the bytes the bounded source still had, from its position, in order
+        r matches Ok(n) ==> {
+            let t0 = (*old(src))->Raw_0;
+            let data = take_data(t0);
+            &&& n as int == take_avail(t0)
+            &&& final(w).stats.bytes_written == n && final(w).stats.hasher@ == old(w).stats.hasher@ + data
+            &&& (gzw_plain(old(w).inner) ==> gzw_plain(final(w).inner)
+                    && (gzw_plain_sink(old(w).inner).g_dev() ==> wr_n(&gzw_plain_sink(old(w).inner), &gzw_plain_sink(final(w).inner), true, data)))
+        },
+{
+    let ghost t0 = (*src)->Raw_0;
+    let ghost d = t0.inner.g_bytes();
+    let ghost p0 = t0.inner.g_pos();
+    let mut buffer = [0u8; 8192];
+    let mut len: u64 = 0;
+    proof {
+        if gzw_plain(w.inner) { lemma_put_empty_any(gzw_plain_sink(w.inner).g_bytes(), gzw_plain_sink(w.inner).g_pos()); }
+        lemma_add_empty();
+    }
+    loop
+        invariant
+            *src is Raw, (*src)->Raw_0.inner.g_dev(), dev_ok(&(*src)->Raw_0.inner), (*src)->Raw_0.inner.g_bytes() == d,
+            !(*src)->Raw_0.inner.g_fault() || true,
+            (*src)->Raw_0.inner.g_pos() == p0 + len, (*src)->Raw_0.limit == t0.limit - len, len <= t0.limit, p0 + len <= d.len() || len == 0,
+            0 <= p0, d.len() <= MAX_OFF, buffer@.len() == 8192, t0.inner.g_bytes() == d, t0.inner.g_pos() == p0,
+            zw_ready(w), zw_wf(old(w)), zw_room(w) || zw_faulted(w) || w.inner is Closed,
+            w.files@.len() == old(w).files@.len(),
+            old(w).files@.len() > 0 ==> entry_identity_kept(old(w).files@.last(), w.files@.last()),
+            forall|i: int| 0 <= i < old(w).files@.len() - 1 ==> w.files@[i] == old(w).files@[i],
+            w.writing_to_file == old(w).writing_to_file && w.writing_to_extra_field == old(w).writing_to_extra_field
+                && w.writing_to_central_extra_field_only == old(w).writing_to_central_extra_field_only
+                && w.writing_raw == old(w).writing_raw && w.comment == old(w).comment,
+            old(w).writing_to_file, !old(w).writing_to_extra_field, old(w).stats.bytes_written == 0,
+            gzw_method(w.inner) == gzw_method(old(w).inner),
+            zw_clean(old(w)) ==> zw_clean(w), w.files@ == old(w).files@,
+            w.stats.bytes_written == len, w.stats.hasher@ == old(w).stats.hasher@ + pre_data(d, p0, len as int),
+            gzw_plain(old(w).inner) ==> gzw_plain(w.inner)
+                && (gzw_plain_sink(old(w).inner).g_dev() ==> wr_n(&gzw_plain_sink(old(w).inner), &gzw_plain_sink(w.inner), true, pre_data(d, p0, len as int))),
+        ensures
+            len as int == take_avail(t0), *src is Raw, pre_data(d, p0, len as int) == take_data(t0),
+            w.stats.bytes_written == len, w.stats.hasher@ == old(w).stats.hasher@ + pre_data(d, p0, len as int),
+            gzw_plain(old(w).inner) ==> gzw_plain(w.inner)
+                && (gzw_plain_sink(old(w).inner).g_dev() ==> wr_n(&gzw_plain_sink(old(w).inner), &gzw_plain_sink(w.inner), true, pre_data(d, p0, len as int))),
+        decreases (*src)->Raw_0.limit,
+    {
+        let ghost w_before = *w;
+        let n = match src.read(&mut buffer) {
+            Ok(n) => n,
+            Err(e) => { return Err(e); }
+        };
+        if n == 0 {
+            proof {
+                // end of the bounded source: the limit is used up or the device has no more bytes
+                let left = d.len() - p0;
+                assert((*src)->Raw_0.limit == 0 || p0 + len >= d.len());
+                assert(t0.inner.g_bytes() == d && t0.inner.g_pos() == p0);
+                if len == 0 {
+                    assert(t0.limit == 0 || left <= 0);
+                } else {
+                    assert(p0 + len <= d.len());
+                    assert(left >= len);
+                    assert(t0.limit == len || left == len);
+                }
+                assert(len as int == take_avail(t0));
+                assert(pre_data(d, p0, len as int) == take_data(t0));
+            }
+            break;
+        }
+        len += n as u64;
+        match shim_zw_write_all(w, &buffer[..n]) {
+            Ok(()) => {}
+            Err(e) => { return Err(e); }
+        }
+        proof {
+            let k = (len - n) as int;
+            assert(buffer@.subrange(0, n as int) == at(d, p0 + k, n as int));
+            assert(pre_data(d, p0, k) + at(d, p0 + k, n as int) =~= pre_data(d, p0, len as int));
+            if gzw_plain(old(w).inner) && gzw_plain_sink(old(w).inner).g_dev() {
+                assert(maybe_ok(gzw_sink(old(w).inner)));
+                assert(dev_ok(&gzw_plain_sink(old(w).inner)));
+                lemma_wr_n_compose(&gzw_plain_sink(old(w).inner), &gzw_plain_sink(w_before.inner), &gzw_plain_sink(w.inner),
+                                   pre_data(d, p0, k), at(d, p0 + k, n as int));
+            }
+        }
+    }
+    Ok(len)
+}
 
 //@impl src/write.rs | impl<W: Write + io::Seek> ZipWriter<W>
 impl<W: Write + io::Seek> ZipWriter<W> {
